@@ -23,7 +23,8 @@ ASSUMPTIONS = ["bit-identity for row perturbation; for permutation / sub-batch r
                "SDE family is compared bitwise there too"]
 REQUIRED_COUNTERS = ["perturb_rows_checked", "permute_runs", "subbatch_runs", "bm_element_checks", "bm_A_checks",
                      "elementwise_bitwise_runs", "bm_large_batch",
-                     "via_adjoint_forward_with_adjoint_adaptive", "scale_separated_runs", "scale_separated_logqp_rows"]
+                     "via_adjoint_forward_with_adjoint_adaptive", "scale_separated_runs", "scale_separated_logqp_rows",
+                     "logqp_rows_checked"]
 THRESHOLDS = {"matmul_rel": 1e-13}
 
 
@@ -92,12 +93,17 @@ def run_solver(case):
     rng = random.Random(case["rseed"])
     viol, cnt, mx = [], {}, {}
     B = rng.choice([2, 3, 8, 17, 64])
-    d = rng.choice([2, 3])
+    d = rng.choice([1, 2, 3])
     elementwise = rng.random() < 0.5
     if elementwise:
         sde = ElementwiseSDE(d, cell["noise_type"], cell["sde_type"])
     else:
-        sde = zoo.cell_sde(cell, d=d, m=2, seed=rng.randrange(10 ** 6), gscale=0.6)
+        sde = zoo.cell_sde(cell, d=d, m=min(2, d), seed=rng.randrange(10 ** 6), gscale=0.6)
+    # a share of the runs also returns the log-ratio (logqp=True): its rows are per-sample quantities too
+    logqp = (not elementwise) and rng.random() < 0.4
+    if logqp:
+        sde = zoo.Conditioned(sde)
+        cnt["logqp_rows_checked"] = 1
     ts = torch.tensor([0.0, 0.2, 0.5])
     dt = 0.1
     entropy = rng.randrange(1, 10 ** 9)
@@ -105,8 +111,10 @@ def run_solver(case):
     gen = torch.Generator().manual_seed(case["rseed"])
     y0 = torch.randn(B, d, generator=gen)
 
+    msize = sde.m + (1 if (logqp and cell["noise_type"] == "diagonal") else 0)
+
     def base_bm():
-        return torchsde.BrownianInterval(0.0, 0.5, size=(B, sde.m), entropy=entropy, levy_area_approximation=levy)
+        return torchsde.BrownianInterval(0.0, 0.5, size=(B, msize), entropy=entropy, levy_area_approximation=levy)
 
     # a share of the cases takes the values from the forward pass of sdeint_adjoint, with an ADAPTIVE backward solve
     # requested (adjoint_adaptive=True must not make the fixed-step forward solve adaptive: an adaptive controller's
@@ -118,8 +126,14 @@ def run_solver(case):
     _solve = zoo.solve
 
     def solve(*a, **k):
-        out_ = _solve(*a, **k, **ekw)
-        return out_.detach() if ekw else out_
+        if logqp:
+            # (T, B, d) states and (T-1, B) log-ratios glued along the last axis: everything below indexes rows on dim 1
+            ys_, lq_ = _solve(*a, **k, **ekw, logqp=True)
+            lq_ = torch.cat([torch.zeros_like(lq_[:1]), lq_], 0).unsqueeze(-1)
+            out_ = torch.cat([ys_, lq_], -1)
+        else:
+            out_ = _solve(*a, **k, **ekw)
+        return out_.detach()
 
     ref = solve(cell, sde, y0, ts, dt, bm=base_bm())
     ctx = f"cell={zoo.cell_name(cell)} B={B} d={d} elementwise={elementwise}"
